@@ -3,7 +3,8 @@ back pickled through pipes.  Works from inside another forked child (no daemon r
 import os, pickle, select, traceback
 
 
-def fork_map(fn, items, nproc):
+def fork_map(fn, items, nproc, deadline_s=None):
+    import time, signal
     items = list(items)
     results = [None] * len(items)
     if nproc <= 1 or len(items) <= 1:
@@ -17,6 +18,8 @@ def fork_map(fn, items, nproc):
             pid = os.fork()
             if pid == 0:
                 os.close(r)
+                if deadline_s is not None:
+                    os.setpgid(0, 0)
                 try:
                     data = pickle.dumps(("ok", fn(it)))
                 except BaseException as e:      # noqa
@@ -25,11 +28,27 @@ def fork_map(fn, items, nproc):
                     f.write(data)
                 os._exit(0)
             os.close(w)
-            running[r] = (idx, pid, [])
+            running[r] = (idx, pid, [], time.time())
+        if deadline_s is not None:
+            now = time.time()
+            for fd in list(running):
+                idx, pid, chunks, t_start = running[fd]
+                if now - t_start > deadline_s:
+                    try:
+                        os.killpg(pid, signal.SIGKILL)
+                    except OSError:
+                        try:
+                            os.kill(pid, signal.SIGKILL)
+                        except OSError:
+                            pass
+                    os.close(fd)
+                    os.waitpid(pid, 0)
+                    del running[fd]
+                    results[idx] = ("err", f"TIMEOUT: exceeded the wall-clock limit of {deadline_s}s")
         ready, _, _ = select.select(list(running), [], [], 1.0)
         for fd in ready:
             chunk = os.read(fd, 1 << 20)
-            idx, pid, chunks = running[fd]
+            idx, pid, chunks, _t = running[fd]
             if chunk:
                 chunks.append(chunk)
                 continue
